@@ -96,6 +96,11 @@ func integer(c map[string]json.RawMessage, k string) int {
 }
 
 func main() {
+	if len(os.Args) >= 2 && os.Args[1] == "__cli" {
+		// run the real coca CLI in this (fresh) process: `harness __cli <coca args...>`
+		runCli(os.Args[2:])
+		return
+	}
 	if len(os.Args) < 4 {
 		fmt.Fprintln(os.Stderr, "usage: harness <family> <cases.jsonl> <out.jsonl>")
 		os.Exit(2)
